@@ -1330,7 +1330,7 @@ class Assembler:
             ed = Edits()
             self.common_edits(s, item, ed, spec, in_trait_impl)
             if item.kind == 'fn':
-                self.fn_edits(s, item, ed, spec, fnname, self.canary == idx)
+                self.fn_edits(s, item, ed, spec, fnname, (self.canary == idx or (self.canary == 'all' and not spec.get('assumed'))))
                 if not spec.get('assumed'):
                     self.functions.append({'function': fnname, 'file': spec['file'],
                                            'sha256': hashlib.sha256(item.text().encode()).hexdigest(),
@@ -1393,9 +1393,9 @@ class Assembler:
                     if s.is_p(k, '='):
                         break
             if item.kind == 'fn' and spec.get('lift'):
-                text = self.lift_closure(s, item, ed, spec, fnname, self.canary == idx)
+                text = self.lift_closure(s, item, ed, spec, fnname, (self.canary == idx or (self.canary == 'all' and not spec.get('assumed'))))
             elif item.kind == 'fn' and spec.get('lift_loop'):
-                text = self.lift_loop(s, item, ed, spec, fnname, self.canary == idx)
+                text = self.lift_loop(s, item, ed, spec, fnname, (self.canary == idx or (self.canary == 'all' and not spec.get('assumed'))))
             else:
                 if spec.get('hoist_as'):
                     if item.kind != 'const':
